@@ -69,6 +69,7 @@ type member struct {
 	Released bool
 	Result   string // what the handler returned (for matching)
 	ReplyExpected bool // reply-shaped member on a push-disabled server: answered as an invalid request
+	DupOf    *member // a call that bears the id of this earlier call (of an earlier message)
 	HErr     string
 }
 
@@ -258,6 +259,8 @@ type srvCfg struct {
 	FaultP       float64 // probability that a channel fault is scripted on the server end
 	EarlyCloseP  float64 // probability that the peer closes before having sent everything
 	PostStop     bool    // keep sending records after the stop
+	FoldReplies  bool    // the peer may put a callback reply and its next requests into one array
+	DupIDs       bool    // now and then a call of a batch reuses the id of a call of an earlier message
 }
 
 func (w *srvWorld) seq() int { return len(w.r.Sim.Events) }
@@ -419,6 +422,7 @@ func (w *srvWorld) generate() {
 		return
 	}
 	n := 0
+	dupTaken := map[*member]bool{}
 	for mi := 0; mi < nm; mi++ {
 		msg := &message{Idx: mi, Sent: -1, Arrive: -1}
 		msg.Gate = g.Chance("msggate", 0.3)
@@ -440,6 +444,33 @@ func (w *srvWorld) generate() {
 		for i := 0; i < k; i++ {
 			n++
 			m := w.genMember(mi, i, n)
+			if w.cfg.DupIDs && msg.Batch && i > 0 && m.Kind == mCall {
+				// now and then a call reuses the id of a call of an earlier message;
+				// whether it is rejected as a duplicate depends on whether that one
+				// is still in flight (C07's matter) - shape, grouping and order of
+				// the replies do not. Its batch holds another request with an id of
+				// its own, so that the reply record can be told apart.
+				anchor := false
+				for _, p := range msg.Members {
+					if p.ID != "" && p.DupOf == nil && (p.Kind == mCall || p.Kind == mUnknownCall || p.Kind == mRPCInfo || p.Kind == mRPCOther) {
+						anchor = true
+					}
+				}
+				var earlier []*member
+				for _, pm := range w.msgs {
+					for _, p := range pm.Members {
+						if p.Kind == mCall && p.DupOf == nil && p.ID != "" && !dupTaken[p] {
+							earlier = append(earlier, p)
+						}
+					}
+				}
+				if anchor && len(earlier) > 0 && g.Chance("dupid", 0.35) {
+					a := earlier[g.Int("dupof", len(earlier))]
+					dupTaken[a] = true
+					m.DupOf, m.ID = a, a.ID
+					m.Raw = fmt.Sprintf(`{"jsonrpc":"2.0","id":%s,"method":"h","params":{"t":%q}}`, m.ID, m.Tag)
+				}
+			}
 			if m.Kind == mReply {
 				m.ReplyExpected = !w.push
 			}
@@ -702,6 +733,27 @@ func (w *srvWorld) peerSender() {
 		rt.Block("peer:next", func() bool {
 			return len(w.outbox) > 0 || (msg != nil && (!msg.Gate || msg.Open)) || w.closeGate
 		})
+		if w.cfg.FoldReplies && len(w.outbox) > 0 && msg != nil && (!msg.Gate || msg.Open) && !msg.Garbage && !msg.Empty && len(msg.Members) > 0 && w.r.Sch.Chance("foldreply", 0.5) {
+			// a client is free to put its answer to a callback and its next
+			// requests into one array, in any position
+			rep := w.outbox[0]
+			w.outbox = w.outbox[1:]
+			front := w.r.Sch.Chance("foldfront", 0.5)
+			switch {
+			case msg.Batch && front:
+				i := strings.Index(msg.Raw, "[")
+				msg.Raw = msg.Raw[:i+1] + rep + "," + msg.Raw[i+1:]
+			case msg.Batch:
+				i := strings.LastIndex(msg.Raw, "]")
+				msg.Raw = msg.Raw[:i] + "," + rep + msg.Raw[i:]
+			case front:
+				msg.Raw, msg.Batch = "["+rep+","+msg.Raw+"]", true
+			default:
+				msg.Raw, msg.Batch = "["+msg.Raw+","+rep+"]", true
+			}
+			w.r.Probe("callback-reply-batched-with-requests")
+			w.r.Ev("peer.fold", fmt.Sprint("msg", msg.Idx), 0, 0, rep)
+		}
 		switch {
 		case len(w.outbox) > 0:
 			raw := w.outbox[0]
@@ -1289,6 +1341,11 @@ func (w *srvWorld) checkResp(m *member, o respObj) string {
 		if m.Enters == 0 {
 			// never handed to its handler: only a call cancelled before it got a slot
 			if o.HasErr && w.cancelRequested(m) {
+				return ""
+			}
+			// ... or one that bears the id of an earlier call (whether that one was
+			// still in flight is for C07 to judge)
+			if m.DupOf != nil && o.HasErr && o.Code == -32600 {
 				return ""
 			}
 			return fmt.Sprintf("%s: answered %+v although its handler never ran", m.Tag, o)
